@@ -2,7 +2,7 @@
 
 from ..isa import Isa
 from ..encoding import Instruction, Syntax, Operand
-from .registers import RiscvRegister
+from .registers import RiscvRegister, LR, SP
 from .tokens import RiscvToken, RiscvcToken
 from .rvc_relocations import BcImm11Relocation, BcImm8Relocation
 from .rvc_relocations import CBImm11Relocation, CBlImm11Relocation
@@ -56,7 +56,7 @@ class OpcRegReg(RiscvcInstruction):
 
 
 def makec_regreg(mnemonic, func):
-    rd = Operand("rd", RiscvRegister, write=True)
+    rd = Operand("rd", RiscvRegister, read=True, write=True)
     rn = Operand("rn", RiscvRegister, read=True)
     syntax = Syntax(["c", ".", mnemonic, " ", rd, ",", " ", rn])
     members = {"syntax": syntax, "rd": rd, "rn": rn, "func": func}
@@ -118,7 +118,7 @@ CAndi = makec_i("andi", 0b10)
 
 
 class CAddi(RiscvcInstruction):
-    rd = Operand("rd", RiscvRegister, write=True)
+    rd = Operand("rd", RiscvRegister, read=True, write=True)
     imm = Operand("imm", int)
     syntax = Syntax(["c", ".", "addi", " ", rd, ",", " ", rd, ",", " ", imm])
 
@@ -190,6 +190,11 @@ class CJal(RiscvcInstruction):
     target = Operand("target", str)
     syntax = Syntax(["c", ".", "jal", " ", target])
 
+    def __init__(self, *args, **kwargs):
+        super().__init__(*args, **kwargs)
+        # c.jal links through ra:
+        self.extra_defs = list(self.extra_defs) + [LR]
+
     def encode(self):
         tokens = self.get_tokens()
         tokens[0][0:2] = 0b01
@@ -260,6 +265,11 @@ class CBlr(PseudoRiscvInstruction):
 class CJalr(RiscvcInstruction):
     rs1 = Operand("rs1", RiscvRegister, read=True)
     syntax = Syntax(["c", ".", "jalr", " ", rs1])
+
+    def __init__(self, *args, **kwargs):
+        super().__init__(*args, **kwargs)
+        # c.jalr links through ra:
+        self.extra_defs = list(self.extra_defs) + [LR]
 
     def encode(self):
         tokens = self.get_tokens()
@@ -377,6 +387,12 @@ class CAddi4spn(RiscvcInstruction):
 class CAddi16sp(RiscvcInstruction):
     imm = Operand("imm", int)
     syntax = Syntax(["c", ".", "addi16sp", " ", imm])
+
+    def __init__(self, *args, **kwargs):
+        super().__init__(*args, **kwargs)
+        # c.addi16sp adjusts the stack pointer:
+        self.extra_uses = list(self.extra_uses) + [SP]
+        self.extra_defs = list(self.extra_defs) + [SP]
 
     def encode(self):
         tokens = self.get_tokens()
